@@ -18,7 +18,7 @@ def distinct(e):
 def run(ctx):
     T = ctx.thorough
     ctx.tlc_mc("MC_UDPSessions", "MC_UDPSessions_big.cfg" if T else "MC_UDPSessions.cfg", timeout=1500)
-    for m in ("GuardClosedInInit", "GuardCloseOnce", "TouchOnReply", "StampOwnID", "LockAcrossDial"):
+    for m in ("GuardClosedInInit", "GuardCloseOnce", "TouchOnReply", "StampOwnID", "LockAcrossDial", "FailPathCloses"):
         ctx.tlc_mc("MC_UDPSessions", "MC_UDPSessions_mut%s.cfg" % m, expect_violation=True)
     if T:
         ctx.tlc_mc("MC_UDPSessions", "MC_UDPSessions_live.cfg", timeout=1500)
